@@ -175,7 +175,7 @@ func C14SmallHeaders() []C14Header {
 		{Parent: p, StateRoot: s, ExtrinsicsRoot: e, Number: 64, Items: []C14Item{{Kind: C14KindPreRuntime, Engine: babe, Data: C14Tame(13, 2)}}},
 		{Parent: p, StateRoot: s, ExtrinsicsRoot: e, Number: 16384, Items: []C14Item{
 			{Kind: C14KindPreRuntime, Engine: babe, Data: C14Tame(13, 2)},
-			{Kind: C14KindConsensus, Engine: frnk, Data: C14Tame(5, 9)},
+			{Kind: C14KindConsensus, Engine: frnk, Data: C14Tame(7, 9)},
 			{Kind: C14KindSeal, Engine: babe, Data: C14Tame(64, 1)}}},
 		{Parent: p, StateRoot: s, ExtrinsicsRoot: e, Number: 1 << 30, Items: []C14Item{{Kind: C14KindRuntimeEnv}, {Kind: C14KindConsensus, Engine: babe, Data: nil}}},
 	}
